@@ -186,7 +186,7 @@ def check(case):
     # the SAME two objects combined once more after one of them was edited in place through the public API: the answer must follow the
     # operands as they are now (nothing remembered from the first operation)
     if case["again"] == "assign_a":
-        if ra.ndim == 0:
+        if ra.ndim == 0 or not ra.vals.size:
             return r
         key = tuple(l[0] for l in ra.labels)
         res = call(A.__setitem__, key if len(key) > 1 else key[0], 7)
